@@ -609,11 +609,8 @@ impl UnnormalizedMachineBuilder<'_> {
         }
     }
 
-    //@[ T: enumerate / find_map are outside the supported subset (body not verified; contract assumed)
-    #[verifier::external_body]
-    //@]
     fn get_index_of_mergable(&self, state: &State) -> /*@[*/(r: /*@]*/Option<StateIndex>/*@[*/)/*@]*/
-        //@[ assumed contract: the first existing state with the same core (decided by are_cores_equal)
+        //@[ C17 C04 C07 get_index_of_mergable: the first existing state with the same core (decided by are_cores_equal)
         ensures match r {
             Some(i) => i.0 < self.states@.len() && same_core(state.items@, self.states@[i.0 as int].items@)
                 && forall|j: int| 0 <= j < i.0 ==> !same_core(state.items@, #[trigger] self.states@[j].items@),
@@ -621,10 +618,17 @@ impl UnnormalizedMachineBuilder<'_> {
         },
         //@]
     {
-        self.states
+        //@[ proof
+        let ghost sts = self.states@;
+        let ghost g = |i: int, st: State| if same_core(state.items@, st.items@) { Some(StateIndex(i as usize)) } else { None::<StateIndex> };
+        proof { vstd::std_specs::vec::axiom_spec_len(&self.states); lemma_first_same_core(sts, g, state.items@, 0); }
+        //@]
+        /*@{ T18_open3*//*@- self.states
             .iter()
             .enumerate()
-            .find_map(|(i, existing_state)| {
+            .find_map(|(i, existing_state)| { *//*@|*/__vx_enumerate_find_map(&self.states, |__vx_p: (usize, &State)| -> (o: Option<StateIndex>)
+                ensures o == g(__vx_p.0 as int, *__vx_p.1)
+            { let (i, existing_state) = __vx_p;/*@}*/
                 if are_cores_equal(state, existing_state) {
                     Some(StateIndex(i))
                 } else {
@@ -1479,6 +1483,20 @@ fn convert_first_set_to_augmented_as_is(first: FirstSet) -> /*@[*/(r: /*@]*/Augm
             .collect(),
     )
 }
+
+//@[ C17 lemma: enumerate + find_map with this closure finds the first state with the same core
+proof fn lemma_first_same_core(sts: Seq<State>, g: spec_fn(int, State) -> Option<StateIndex>, items: Set<StateItem>, i: int)
+    requires sts.len() <= usize::MAX, 0 <= i,
+        forall|k: int, st: State| #[trigger] g(k, st) == (if same_core(items, st.items@) { Some(StateIndex(k as usize)) } else { None::<StateIndex> }),
+    ensures match enum_find_map_spec(sts, g, i) {
+        Some(r) => i <= r.0 < sts.len() && same_core(items, sts[r.0 as int].items@) && forall|j: int| i <= j < r.0 ==> !same_core(items, #[trigger] sts[j].items@),
+        None => forall|j: int| i <= j < sts.len() ==> !same_core(items, #[trigger] sts[j].items@),
+    }
+    decreases sts.len() - i
+{
+    if i < sts.len() { lemma_first_same_core(sts, g, items, i + 1); }
+}
+//@]
 
 fn are_cores_equal(a: &State, b: &State) -> /*@[*/(r: /*@]*/bool/*@[*/)/*@]*/
     //@[ C17 C04 C11 are_cores_equal: states are merged iff their cores (rule, dot pairs) are equal - BOTH inclusions
